@@ -1,7 +1,11 @@
-(* Which extracted monitors exist, and how their verdicts are printed: "C09:1 C10:0 ..." *)
+(* Which extracted monitors exist, and how their verdicts are printed: "C09:1 C07:0 ..." *)
 module M = Model
 
 let b2s b = if b then "1" else "0"
+let rec nat_to_int = function M.O -> 0 | M.S k -> 1 + nat_to_int k
 
-let run_all (_p : M.program) (o : M.output) : string =
-  String.concat " " [ "C09:" ^ b2s (M.chk_C09 o) ]
+let run_all (p : M.program) (o : M.output) : string =
+  String.concat " "
+    [ "C09:" ^ b2s (M.chk_C09 o);
+      "C07:" ^ b2s (M.chk_C07 p o);
+      "j07:" ^ string_of_int (nat_to_int (M.judged_C07 p)) ]
